@@ -305,6 +305,61 @@ def ob_sub8(kind):
     return h
 
 
+def ob_yield_kinds():
+    """a yielding project option of every kind takes the parent's value WHATEVER that value is (false, 0, '', [], 'disabled'), also after the parent is
+    set from the command line; a parent of another type is not yielded to"""
+    def h():
+        K = O.OptionKey
+        store = new_store()
+        kind = choose(6, 'kind')
+        same_type = choose(2, 'sametype') == 0
+        if kind == 0:
+            pv = decide(sym_bool('parent')); cv = decide(sym_bool('child'))
+            mk = lambda v, **kw: O.UserBooleanOption('o', 'x', v, **kw)
+            nv = decide(sym_bool('new')); raw = 'true' if nv else 'false'
+        elif kind == 1:
+            pv = sym_int('parent', -2, 2); cv = sym_int('child', -2, 2)
+            mk = lambda v, **kw: O.UserIntegerOption('o', 'x', v, min_value=-2, max_value=2, **kw)
+            nv = sym_int('new', -2, 2); raw = nv
+        elif kind == 2:
+            pv = sym_str(choose(2, 'lp'), 'parent', alphabet='a '); cv = sym_str(choose(2, 'lc'), 'child', alphabet='a ')
+            mk = lambda v, **kw: O.UserStringOption('o', 'x', v, **kw)
+            nv = sym_str(choose(2, 'ln'), 'new', alphabet='a '); raw = nv
+        elif kind == 3:
+            F = ['enabled', 'disabled', 'auto']
+            pv = F[choose(3, 'parent')]; cv = F[choose(3, 'child')]
+            mk = lambda v, **kw: O.UserFeatureOption('o', 'x', v, **kw)
+            nv = F[choose(3, 'new')]; raw = nv
+        elif kind == 4:
+            C = ['c0', 'c1', 'c2']
+            pv = C[choose(3, 'parent')]; cv = C[choose(3, 'child')]
+            mk = lambda v, **kw: O.UserComboOption('o', 'x', v, choices=list(C), **kw)
+            nv = C[choose(3, 'new')]; raw = nv
+        else:
+            A = [[], ['a'], ['a', 'b']]
+            pv = A[choose(3, 'parent')]; cv = A[choose(3, 'child')]
+            mk = lambda v, **kw: O.UserStringArrayOption('o', 'x', list(v), **kw)
+            nv = A[choose(3, 'new')]; raw = list(nv)
+        if same_type:
+            store.add_project_option(K('o', subproject=''), mk(pv))
+        else:
+            store.add_project_option(K('o', subproject=''), O.UserStringOption('o', 'x', 'other') if kind != 2 else O.UserBooleanOption('o', 'x', True))
+        store.initialize_from_top_level_project_call({}, {}, {})
+        store.add_project_option(K('o', subproject='sub'), mk(cv, yielding=True))
+        store.initialize_from_subproject_call('sub', {}, {}, {}, {})
+        got = store.get_value_for('o', 'sub')
+        if same_type:
+            check(eq(got, pv), 'a yielding option takes the parent\'s value')
+            store.set_from_configure_command({K('o', subproject=''): raw})
+            check(eq(store.get_value_for('o', ''), nv), 'parent set from the command line')
+            check(eq(store.get_value_for('o', 'sub'), nv), 'the yielding option follows the parent\'s new value')
+            cover('yields')
+        else:
+            check(eq(got, cv), 'a parent option of a different type is not yielded to')
+            cover('different-type')
+    return h
+
+
 def obligations(tier):
     out = [Obligation('top/integer', ob_top_int(), dict(sources='2^3', values='-9..9 as int or 1-digit string', range='symbolic in -5..5'), labels=('accepted', 'rejected'), max_paths=2000000)]
     for kind in ('bool', 'combo', 'feature', 'string'):
@@ -314,6 +369,8 @@ def obligations(tier):
         out.append(Obligation('per-machine/%s' % ('cross' if cross else 'native'), ob_machine(cross), dict(option='pkg_config_path / build.pkg_config_path', source='any of 3'), labels=('done',)))
     out.append(Obligation('top/prefix', ob_prefix(), dict(sources='2^3', prefixes=PFX), labels=('done',)))
     out.append(Obligation('top/buildtype', ob_buildtype(), dict(buildtype='all', source='any of 3', debug_opt='given or not'), labels=('done',)))
+    out.append(Obligation('yielding/kinds', ob_yield_kinds(), dict(kinds='boolean, integer -2..2, string <=1, feature, combo, array', parent='symbolic value, then set from the command line'),
+                          labels=('yields', 'different-type'), max_paths=2000000))
     for kind in ('system', 'project', 'yielding'):
         out.append(Obligation('subproject/8-step/' + kind, ob_sub8(kind), dict(sources='2^8 subsets', kind=kind), labels=('done',)))
     return out
